@@ -166,6 +166,17 @@ pub struct RangeIterator {
     done: bool,
 }
 
+impl RangeIterator {
+    /// Moves to the next candidate. When it is not representable the range has no further
+    /// member (every member lies between `first` and `last`), so the iteration is over.
+    fn advance(&mut self) {
+        match self.current.checked_add(self.range.step) {
+            Some(next) => self.current = next,
+            None => self.done = true,
+        }
+    }
+}
+
 impl Iterator for RangeIterator {
     type Item = i64;
 
@@ -184,7 +195,7 @@ impl Iterator for RangeIterator {
             if value == self.range.last {
                 self.done = true;
             } else {
-                self.current = self.current.saturating_add(self.range.step);
+                self.advance();
             }
         } else {
             if value < self.range.last {
@@ -194,7 +205,7 @@ impl Iterator for RangeIterator {
             if value == self.range.last {
                 self.done = true;
             } else {
-                self.current = self.current.saturating_add(self.range.step);
+                self.advance();
             }
         }
 
